@@ -180,9 +180,9 @@ CHECKS = {
         "rule": ("kinds pipe (scripted plans: buffer in {0,1,2,5}, 1-3 senders, 1-24 steps incl. tryburst = all senders TrySend at once, contexts that end by cancel or - 'deadlines' plans - by deadline on the fake clock and may be reused after they ended, + drain epilogue) and pipe-storm (500-3000 short-lived pipes per case on real goroutines: 1-4 values then Close after a swept busy delay, blocking or ended-context-polling consumer; every storm case counts as non-trivial) and pipe-parked (real clock, own process: with one Send parked, TrySend / TrySend under an ended context / Send with a 5 ms timeout / the receiver's Close each return within 5 s); pipe plans: non-trivial = Close called while accepted values were still buffered (buffer >= 1), or Sends of two sender actors overlapped, or a Send was blocked when the receiver closed; distinct = distinct plan JSON; R=5/20 executions each"),
         "assumptions": ["testing/synctest durable-block detection", "logical stamps taken by the actors bracket the library calls", "rapid v1.3.0; go1.26.8"],
         "jobs": [{"pkg": "c10pipe", "run": "TestPipeParked|TestPipeSenderCollected", "kinds": ["pipe-parked", "pipe-gc"], "scale_thorough": 4, "shards_thorough": 2},
-                 {"pkg": "c10pipe", "run": "TestPipe$|TestPipeStorm", "kinds": ["pipe", "pipe-storm"], "scale_thorough": 8, "shards_thorough": 16, "replay_reps": 200},
-                 {"pkg": "c10pipe", "goarch": "386", "run": "TestPipe$|TestPipeStorm", "kinds": ["pipe", "pipe-storm"], "scale_quick": 0.1, "scale_thorough": 1, "shards_thorough": 2},
-                 {"pkg": "c10pipe", "race": True, "run": "TestPipe$|TestPipeStorm", "kinds": ["pipe", "pipe-storm"], "scale_quick": 0.15, "scale_thorough": 2, "shards_thorough": 4, "replay_reps": 20}],
+                 {"pkg": "c10pipe", "run": "TestPipe$|TestPipeStorm|TestPipeValues", "kinds": ["pipe", "pipe-storm", "pipe-values"], "scale_thorough": 8, "shards_thorough": 16, "replay_reps": 200},
+                 {"pkg": "c10pipe", "goarch": "386", "run": "TestPipe$|TestPipeStorm|TestPipeValues", "kinds": ["pipe", "pipe-storm", "pipe-values"], "scale_quick": 0.1, "scale_thorough": 1, "shards_thorough": 2},
+                 {"pkg": "c10pipe", "race": True, "run": "TestPipe$|TestPipeStorm|TestPipeValues", "kinds": ["pipe", "pipe-storm", "pipe-values"], "scale_quick": 0.15, "scale_thorough": 2, "shards_thorough": 4, "replay_reps": 20}],
     },
     "C12": {
         "level": "exploration",
@@ -297,7 +297,7 @@ RULE_ADDENDA = {
     "C06": " Kind list-clear-wrap (own process): the generated plan on lists that have been Cleared 2^8, 2^16 and 2^32 (-2 ... +1) times before. Steps also include 'relocate' (the List value is moved to another address), 'bulk' (hundreds of nodes) and reuse of cleared handles; kind list-gc: nodes only reachable through the list survive three GCs with their pointer-holding payload intact.",
     "C07": " Kind shared-upstream: outer = G(inner), inner = F(src) for F, G in First / Filter / Map / CompactFunc, pulled alternately through outer, inner and src against a model with one shared source position (non-trivial = pulls through at least two of them); one case in 25 instead runs Compact / Filter over a stretch of 1-3 million dropped items with the goroutine stack limited to 64 MB. Inputs include NaN, negative and huge counts, 1025-2600-item inputs for Chunk/Last; callbacks are counted; results must be independent of their inputs (scribbling); argument slices must be left intact; constructors are read with contexts that end before, between and during calls.",
     "C09": " Kind own-real-clock (own process, real clock, no bubble: MapStream, Batch, Merge and MapStream over Batch with zero-latency sources; stop after j outputs or read to the end / error; Close within 10 s; then the ownership log of every source; non-trivial = a fault or an early stop). Kind panic-abandon: a consumer whose callback panics and whose deferred Close runs: still exactly one Close per stream.",
-    "C10": " Close errors include context.Canceled / DeadlineExceeded themselves; kind pipe-gc (a properly closed sender's error survives GCs and finalizers); the package also runs for GOARCH=386.",
+    "C10": " Kind pipe-values: pipes of any / error (incl. the nil interface value and typed nils), nil pointers, nil and empty slices, struct{} and a struct holding a slice and a map: the value received is the value sent (non-trivial = a nil / zero value among at least 2). pipe-storm also runs empty streams (closed while the consumer begins to wait) and consumers that close without reading while the producer sends; blocking calls have a 10 s limit. Close errors include context.Canceled / DeadlineExceeded themselves; kind pipe-gc (a properly closed sender's error survives GCs and finalizers); the package also runs for GOARCH=386.",
     "C11": " Plans also include sources whose Close takes time, batchSize MaxInt, 'long' streams of hundreds of batches with a bound on batch capacity, and BatchFunc predicates that take 2 x maxWait (old timers); a Next that has not returned after 10 s of active time is a 'stuck' violation. Kind batch-lib-source: Batch over the library's own streams (stream.Chan over a channel that may stay open, FromIterator, a Pipe, a Batch of a Batch): partition, sizes, end, and Close returning at any moment (non-trivial = at least 2 batches, or closed before the end).",
     "C12": " Kind merge-real-clock (own process, real goroutines, no bubble): chans.Merge of 0-12 inputs, chans.Replicate to 0-5 destinations, stream.Merge with an optional failing input and an optional early Close: interleaving / completeness / first error / ownership, 10 s limit (non-trivial = at least 2 inputs or destinations). Inputs may be the library's own streams or non-comparable struct values; failing inputs may fail at the same instant with errors of different concrete types; kind stream-merge-wide: 300 inputs that each have to deliver before any of them ends; kind stream-merge-error-busy-sibling: one input fails while the others sit in a Next call that ignores its context and returns only after the consumer has seen the failure (the error must not wait for them). Also runs for GOARCH=386.",
     "C13": " Kind cancel-at-entry-storm (own process, real goroutines): the caller's context is cancelled around the instant DoContext / MapContext is entered, 2000-8000 rounds per case with a swept offset: nil means every call was made and the results are complete, anything else is the context's error (non-trivial = both outcomes occurred). Parallelism also 65 / 130 / 1000 with 2*par+3 slow calls. Errors of mixed concrete types, n up to 8192 incl. multiples of 64, nested Do/Map inside the callbacks. Also runs for GOARCH=386.",
